@@ -39,11 +39,14 @@ class RefServer:
         self.last_style = "full"
         self.seg_len = 7
         self.requests = []
+        self.check = True          # False: permissive peer (no obligations on the requests)
         self.finished = 0
         self.aborts_seen = []
 
     # ---- obligations on frames -----------------------------------------------------------
     def _p(self, cond, what):
+        if not self.check:
+            return
         sx.prove(cond, "client request: " + what, "%s/frame/%s" % (self.tag, what))
 
     def on_request(self, frame):
@@ -67,7 +70,8 @@ class RefServer:
             self.aborts_seen.append((f[1] | (f[2] << 8), f[3], _u32(f[4:8])))
             self.state = "idle"
             return []
-        sx.fail("client request: unexpected command specifier", "%s/frame/ccs" % self.tag)
+        if self.check:
+            sx.fail("client request: unexpected command specifier", "%s/frame/ccs" % self.tag)
         return []
 
     def _check_mux(self, f):
